@@ -18,6 +18,11 @@ Transmit spec (clock_phase = 1: data changes on the leading edge, is sampled on 
     oe  : output edges since txw was latched;  after the j-th output edge (1 <= j <= word_size) sdo == bit (word_size-j)
           of txw when msb_first (the statement's clause).  For msb_first=False the tree sends LSB first; that order is
           checked too, but it is the tree's documented option, not a clause of the statement (reported as such).
+
+Finding on the unchanged tree: bit_count is only cleared when CS deasserts and otherwise relies on natural wrap-around, so
+for word sizes that are not a power of two the second and later words of a transaction are not reported after word_size
+sample edges (w=3: second word_complete missing; replays/C50_SPIDeviceInterface_w3_property_level_witness.json, replayed
+on the simulator).  Proposed fix: proposed_fixes/C50_spi_bit_count_wrap.diff (clear bit_count when a word completes).
 """
 import z3
 from hwv.contract import B, zx, bvc, bits
@@ -119,9 +124,9 @@ def make(ws, pol, pha, msb, cs_high=False):
             c.cover("second_word_bit_returned", z3.And(oe == 1, words == 1, O["o_sdo"] == 1))
 
         c.cover("word_reported", O["o_word_complete"] == 1)
-        c.cover("third_word_of_transaction_reported", z3.And(words == 3, O["o_word_complete"] == 1, O["o_word_in"] != 0))
+        c.cover("second_word_of_transaction_reported", z3.And(words == 2, O["o_word_complete"] == 1, O["o_word_in"] != 0))
         c.cover("deselected_mid_word", z3.And(z3.Not(selected), cnt != 0) if ws > 1 else z3.Not(selected))
-        c.cover_depth = 6 * ws + 10
+        c.cover_depth = 4 * ws + 10
         c.bmc_depth = max(c.bmc_depth, 4 * ws + 12)
     return contract
 
@@ -129,8 +134,7 @@ def make(ws, pol, pha, msb, cs_high=False):
 def contracts(tier):
     if tier == "quick":
         cfgs = [(8, 0, 0, True, False), (8, 0, 1, True, False), (8, 1, 0, False, False), (8, 1, 1, True, True),
-                (3, 0, 1, True, False), (5, 0, 0, True, False), (5, 1, 1, False, False), (2, 0, 0, True, False),
-                (1, 0, 1, True, False), (4, 0, 0, False, True), (6, 0, 1, True, False)]
+                (3, 0, 1, True, False), (5, 0, 0, True, False), (6, 1, 1, False, False), (1, 0, 1, True, False)]
     else:
         cfgs = [(ws, pol, pha, msb, False) for ws in range(1, 18) for (pol, pha) in ((0, 0), (0, 1), (1, 0), (1, 1)) for msb in (True, False)]
         cfgs += [(8, 0, 0, True, True), (5, 0, 1, True, True), (32, 0, 1, True, False), (32, 0, 0, True, False), (24, 1, 1, True, False)]
